@@ -39,7 +39,7 @@ namespace rkcommon {
         auto *in = (const COMP_T *)&pixel[(FLIP ? sizeY - 1 - y : y) * sizeX];
         for (int x = 0; x < sizeX; x++)
           for (int c = 0; c < N_COMP; c++)
-            out[N_COMP * x + c] = in[PIXEL_COMP * x + (N_COMP == 1 ? 3 : c)];
+            out[N_COMP * x + c] = in[PIXEL_COMP * x + (N_COMP == 1 ? PIXEL_COMP - 1 : c)];
         fwrite(out, N_COMP * sizeX, sizeof(COMP_T), file);
       }
       fprintf(file, "\n");
